@@ -38,7 +38,7 @@ func c16(r *Report) propMeta {
 		r.ArgHas("hook-addr", rH+h, "Hooks.isAbleToUnbond", 1, 1, "^param:delAddr")
 	}
 	bdr := rH + "BeforeDelegationRemoved"
-	r.ArgHas("remaining-power", bdr, "Hooks.isAbleToUnbond", 2, 1, "^call:Int.Sub", "call:StakingKeeper.GetDelegatorBonded", "call:Validator.TokensFromSharesTruncated", "field:Delegation.Shares", "call:StakingKeeper.GetDelegation")
+	r.ArgHas("remaining-power", bdr, "Hooks.isAbleToUnbond", 2, 1, "^call:Int.Sub", "call:StakingKeeper.GetDelegatorBonded", "call:Validator.TokensFromSharesTruncated", "field:Delegation.Shares", "call:StakingKeeper.GetDelegation", "call:LegacyDec.RoundInt", "!call:LegacyDec.TruncateInt") // rounded like GetDelegatorBonded rounds each delegation: subtracting a truncated value leaves the remainder one token too high (seed C07-13)
 	r.ArgHas("removed-delegation", bdr, "StakingKeeper.GetDelegation", 1, 1, "^param:delAddr")
 	r.ArgHas("removed-delegation-val", bdr, "StakingKeeper.GetDelegation", 2, 1, "^param:valAddr")
 	r.ArgHas("removed-delegation-validator", bdr, "StakingKeeper.GetValidator", 1, 1, "^param:valAddr")
